@@ -559,6 +559,20 @@ func RunConcScenario(sc *Scenario) (vd *Verdict) {
 			fail(v)
 			return
 		}
+		// at quiescence every context a client can ask for holds every namespace that was handed out
+		live := h.Store.NamespaceManager.GetPrefixToExpansionMap()
+		for variant, ctx := range map[string]*server.Context{"global": h.Store.GetGlobalContext(false), "global-strict": h.Store.GetGlobalContext(true), "manager": h.Store.NamespaceManager.GetContext(nil)} {
+			for _, p := range sortedKeys(live) {
+				e := live[p]
+				if variant == "global-strict" && !strings.HasSuffix(e, "#") && !strings.HasSuffix(e, "/") {
+					continue
+				}
+				if got, ok := ctx.Namespaces[p]; !ok || got != e {
+					fail(viol("C13", "concurrent-consistency", "context-lacks-namespace:"+variant, "after the concurrent phase the %s context maps prefix %s to %q; the namespace manager handed it out for %q", variant, p, got, e))
+					return
+				}
+			}
+		}
 		// every identifier of an acknowledged write has its internal id and finds its entity
 		for _, cos := range r.ops {
 			for _, co := range cos {
